@@ -275,7 +275,7 @@ func unionCase(r *rand.Rand) (string, [][]string) {
 	k := 2 + r.Intn(5)
 	var parts []gen.IG
 	for i := 0; i < k; i++ {
-		switch r.Intn(7) {
+		switch r.Intn(8) {
 		case 0:
 			parts = append(parts, gen.IG{N: 1, E: [][2]int{{0, 0}}, Family: "selfloop-node"})
 		case 1:
@@ -286,6 +286,10 @@ func unionCase(r *rand.Rand) (string, [][]string) {
 			parts = append(parts, gen.SelfLoops(r, gen.Multi(r, gen.DAG(r, 2+r.Intn(6), 0.5), 0.3, 0.2), r.Intn(2)))
 		case 4:
 			parts = append(parts, gen.Skip(r, 3+r.Intn(3), 1, 3, 0.4, 1+r.Intn(3), 2+r.Intn(2)))
+		case 5:
+			// a dense cyclic part: needs many pivots, so it is the part that meets the iteration budget first
+			m := 9 + r.Intn(8)
+			parts = append(parts, gen.Connect(r, gen.Digraph(r, m, 2*m+r.Intn(m)), false))
 		default:
 			parts = append(parts, gen.DAG(r, 2+r.Intn(8), 0.4))
 		}
@@ -311,6 +315,18 @@ func init() {
 			c.Family, c.Edges = unionCase(r)
 			ids := nodeIDs(c.Edges)
 			o := fastCell(r, 6, true) // parts are small, the slow positioner is affordable
+			if o.Positioner == 3 {
+				sizes := map[int]int{}
+				vv := newView(c.Edges, o, graph.Layout{}, true)
+				for _, id := range ids {
+					sizes[vv.comp[id]]++
+				}
+				for _, n := range sizes {
+					if n > 10 {
+						o.Positioner = 0 // ... unless a part is big
+					}
+				}
+			}
 			c.Regime = pickRegime(r)
 			if o.Positioner == 3 {
 				c.Regime = "integer"
@@ -322,6 +338,12 @@ func init() {
 			}
 			o.NodeSpacing = spacingVal(r, c.Regime, true)
 			o.LayerSpacing = spacingVal(r, c.Regime, true)
+			switch r.Intn(6) {
+			case 0:
+				o.Thoroughness = uptr(1)
+			case 1:
+				o.Thoroughness = uptr(uint(2 + r.Intn(3)))
+			}
 			capNS(&o)
 			c.Opts = o
 			return c
@@ -329,7 +351,20 @@ func init() {
 		Check: func(c *core.Case, wantSample bool) Result {
 			whole := core.Run(c.Edges, c.Opts)
 			if whole.Panic != nil {
-				return noReturn(whole.Panic)
+				// independence also means: if every component can be laid out alone, so can the union
+				vv := newView(c.Edges, c.Opts, graph.Layout{}, true)
+				for ci := 0; ci < vv.ncomp; ci++ {
+					var sub [][]string
+					for _, e := range c.Edges {
+						if vv.comp[e[0]] == ci {
+							sub = append(sub, e)
+						}
+					}
+					if core.Run(sub, c.Opts).Panic != nil {
+						return noReturn(whole.Panic)
+					}
+				}
+				return violated("C09/union-panics-parts-return", fmt.Sprintf("every one of the %d components is laid out when given alone, but the union panics: %s in %s", vv.ncomp, whole.Panic.Msg, whole.Panic.Func))
 			}
 			if again := core.Run(c.Edges, c.Opts); again.Panic != nil || core.Canon(again.Layout) != core.Canon(whole.Layout) {
 				r := skipped("C07")
